@@ -25,6 +25,8 @@ Violations(line) ==
      \* reported metadata of the existing and the new plugin on success
      \* permission bits of the installed copies (growth: file.CopyToDir masks with 0755; a candidate is made executable first)
   \cup R("file-modes", \E k \in 1..Len(o.modes) : o.modes[k].got # InstalledMode(o.modes[k].src, o.modes[k].madeExec))
+     \* what is installed is a copy of its own: it shares no file with the source
+  \cup R("installed-file-is-the-source-file", o.aliased)
   \cup R("reported-metadata", o.ok /\ i.op = "Install" /\ (o.reportedNew # i.src.ver \/ (CurOf(i).present /\ o.reportedOld # CurOf(i).ver)))
 
 Why(line) == line.in.op \o "-" \o line.in.src.shape \o "-" \o line.in.src.cand \o (IF line.in.src.overwrite THEN "-overwrite" ELSE "")
